@@ -144,6 +144,7 @@ pub fn trial_opts(net: &mut Net, b: u64, kind: &'static str, writer: usize, read
     // every third announce: a SECOND announcer for the same info_hash, on the writer's IP address (another client behind the
     // same NAT / on the same host, other port; for signed announcements: another signer) announces after the first one.
     // The first announcer's record must still be found.
+    // (every other time the second announcer names port 0 explicitly - nothing stops a client from doing so)
     let mut second = "";
     if b % 3 == 1 && (kind.starts_with("announce") || st.kind == "signed") && !polled {
         let mut o = NodeOpts::client(*waddr.ip(), &net.boot);
@@ -157,7 +158,7 @@ pub fn trial_opts(net: &mut Net, b: u64, kind: &'static str, writer: usize, read
             let sig = crypto::sign(&sk, &crypto::announce_signable(&st.target, ts));
             PutRequestSpecific::AnnounceSignedPeer(v::AnnounceSignedPeerRequestArguments { info_hash: Id::from(st.target), t: ts, k: sk.verifying_key().to_bytes(), sig })
         } else {
-            PutRequestSpecific::AnnouncePeer(v::AnnouncePeerRequestArguments { info_hash: Id::from(st.target), port: 4343, implied_port: None })
+            PutRequestSpecific::AnnouncePeer(v::AnnouncePeerRequestArguments { info_hash: Id::from(st.target), port: if (b / 6) % 2 == 0 { 0 } else { 4343 }, implied_port: None })
         };
         let mut put2 = net.sim.call_put(w2, req2, None, "put2");
         net.sim.poke(w2);
